@@ -246,6 +246,21 @@ func SyncPoint() {
 	point(true)
 }
 
+// AfterStore is the scheduling point right after an atomic store / publication.
+//
+//go:norace
+func AfterStore() {
+	stepTotal++
+	if !active {
+		return
+	}
+	afterStore = true
+	point(true)
+	afterStore = false
+}
+
+var afterStore bool
+
 //go:norace
 func point(sync bool) {
 	s := cur
@@ -271,6 +286,9 @@ func point(sync bool) {
 	if next != t {
 		if locksHeld > 0 {
 			probe[ProbeSwitchInLock]++
+		}
+		if afterStore {
+			probe[ProbeAtomicStoreSw]++
 		}
 		s.switchTo(t, next)
 	}
